@@ -1,5 +1,6 @@
 import jax
 
+from lcm import _verif
 from lcm.dispatchers import spacemap
 
 
@@ -71,6 +72,12 @@ def solve(
         calculate_emax = emax_calculators[period]
         vf_arr = calculate_emax(conditional_continuation_values, params=params)
         reversed_solution.append(vf_arr)
+        _verif.emit(
+            "solve_period",
+            period=period,
+            ccv=conditional_continuation_values,
+            vf_arr=vf_arr,
+        )
 
         logger.info("Period: %s", period)
 
